@@ -156,7 +156,7 @@ def main():
         f.write("\n")
 
 
-HOOK_COMMITS = ["3eebe24", "bcdc3eb", "6111039", "0113d15", "6c37c29"]
+HOOK_COMMITS = ["3eebe24", "bcdc3eb", "6111039", "0113d15", "6c37c29", "1a02646"]
 
 if __name__ == "__main__":
     main()
